@@ -519,6 +519,11 @@ func (env *SpecEnv) binary(x *SBinary) (Val, error) {
 		}
 		fallthrough
 	case "-", "*":
+		if a.S == SFlt && b.S == SFlt && a.Typ != nil && env.ex != nil {
+			// floating point: the same uninterpreted operation symbol the code's own arithmetic is modelled by
+			fn := "flt." + map[string]string{"+": "add", "-": "sub", "*": "mul"}[x.Op] + "_" + typeKey(a.Typ)
+			return Val{T: env.ex.uninterp(fn, []Val{a, b}, SFlt), S: SFlt, Typ: a.Typ}, nil
+		}
 		if a.S != SInt || b.S != SInt {
 			return Val{}, fmt.Errorf("arithmetic on sorts %s, %s", a.S, b.S)
 		}
@@ -900,6 +905,32 @@ func (env *SpecEnv) call(x *SCall) (Val, error) {
 		ty := types.Universe.Lookup(x.Fun).Type()
 		ii, _ := intInfoOf(ty)
 		return Val{T: ii.wrapFull(v.T), S: SInt, Typ: ty}, nil
+	case "extstr", "extint":
+		// extstr("pkg.Func", args...) / extint(...): the value the effect-free external function of that key returns
+		// for these arguments - the same uninterpreted application the code's own call is modelled by
+		if len(x.Args) < 1 {
+			return Val{}, fmt.Errorf("%s: missing function key", x.Fun)
+		}
+		kl, ok := x.Args[0].(*SStrLit)
+		if !ok || !pureExterns[kl.V] {
+			return Val{}, fmt.Errorf("%s: first argument must name an effect-free external function", x.Fun)
+		}
+		var sorts, ts []string
+		for _, a := range x.Args[1:] {
+			v, err := env.term(a)
+			if err != nil {
+				return Val{}, err
+			}
+			sorts = append(sorts, v.S)
+			ts = append(ts, v.T)
+		}
+		rs, rt := SStr, types.Type(strT)
+		if x.Fun == "extint" {
+			rs, rt = SInt, intT
+		}
+		fname := fmt.Sprintf("ext_%s_%d", sanitize(kl.V), 0)
+		vc.declFun(fname, sorts, rs)
+		return Val{T: sApp(fname, ts...), S: rs, Typ: rt}, nil
 	case "typeid":
 		v, err := env.term(x.Args[0])
 		if err != nil {
